@@ -1,6 +1,6 @@
 """C05 - a rule is valid iff every node its path selects satisfies its condition."""
 from ..runner import TestSpec, Outcome
-from ..terms import show, Op
+from ..terms import show, Op, Prim
 from .. import model, build, gen as G, spec as SP
 from ..snapshot import exact
 from . import edits
@@ -101,6 +101,26 @@ def body(case):
         out.exc("no-raise|test", e)
         return out
     check_rule_test(out, rt, ref, doc)
+    # the same rule with its path (a) put together with the `/` operator and (b) carrying `.all()` - which asks for
+    # every match, i.e. for what the path selects anyway: every selected node is judged, as before
+    parts = rule.path.parts
+    variants = []
+    if len(parts) >= 2:
+        k = 1 + len(repr(parts)) % (len(parts) - 1)
+        variants.append(("joined-path", lambda: ns.d.DataPath(*[build.build_part(x) for x in parts[:k]]) / (
+            build.build_part(parts[k]) if len(parts) - k == 1 and not isinstance(parts[k], Prim) else ns.d.DataPath(*[build.build_part(x) for x in parts[k:]]))))
+    if parts and not model.is_concrete(parts) and not rule.path.multi:
+        variants.append(("all()-path", lambda: build.build_path(rule.path).all()))
+    if not out.violations and not rule.cast:
+        for name, mk in variants:
+            try:
+                r2 = ns.r.Rule(path=mk(), condition=build.build_cond(rule.cond))
+                rt2 = r2.test(doc)
+            except Exception as e:
+                out.exc(f"no-raise|{name}", e)
+                continue
+            check_rule_test(out, rt2, ref, doc, prefix=f"{name}-")
+            out.label(name)
     return out
 
 
